@@ -287,8 +287,15 @@ class IGen:
             tpls[f"inc{i}"] = self.helper_inc(f"inc{i}", nested)
         for i in range(n_mod):
             nested = None
-            if i == 1 and r.random() < 0.5:
-                nested = ["import", C("mod0"), "inner", self.pick([None, True, False])]
+            if i == 1 and r.random() < 0.6:
+                if r.random() < 0.5:
+                    nested = ["import", C("mod0"), "inner", self.pick([None, True, False])]
+                else:
+                    # the module imports a name it also defines itself, under an alias: its own
+                    # definition stays exported, the alias is not
+                    nested = ["from", C("mod0"), [[self.pick(["pub", "mac", "condpub"]), "inner"]],
+                              self.pick([None, True, False])]
+                    self.info.add("nested_from_import_alias_of_own_name")
                 self.info.add("nested_import")
             tpls[f"mod{i}"] = self.helper_mod(f"mod{i}", nested)
         incs = [f"inc{i}" for i in range(n_inc)]
